@@ -373,6 +373,19 @@ def child_units_only(args):
         got = read_force_constants_from_hdf5(filename=fn, calculator=calc)
         out["hdf5_src"] = src
         out["hdf5_err"] = float(np.max(np.abs(got - small / peers.fc_unit(calc)))) / max(1e-300, float(np.max(np.abs(small / peers.fc_unit(calc)))))
+        # the same through the front door: phonopy.load(..., force_constants_filename=<labelled hdf5>, calculator=K)
+        import phonopy
+
+        fn2 = os.path.join(td, "force_constants_labelled.hdf5")
+        write_force_constants_to_hdf5(fc_model / peers.fc_unit(src), filename=fn2, physical_unit=peers.FC_LABEL[src])
+        try:
+            ph2 = phonopy.load(unitcell=cell, supercell_matrix=w.supercell_matrix, primitive_matrix=w.primitive_matrix, calculator=calc,
+                               force_constants_filename=fn2, is_nac=False, symmetrize_fc=False, is_compact_fc=False, log_level=0)
+            got2 = np.array(ph2.force_constants)
+            want2 = fc_model / peers.fc_unit(calc)
+            out["hdf5_load_err"] = (float(np.max(np.abs(got2 - want2))) / max(1e-300, float(np.max(np.abs(want2))))) if got2.shape == want2.shape else 1.0
+        except Exception as e:  # noqa: BLE001
+            out["hdf5_load_err"] = "%s: %s" % (type(e).__name__, str(e)[:160])
     return out
 
 
@@ -442,6 +455,8 @@ def execute(spec):
         want = peers.LABEL_VALUE[lab] / peers.fc_unit(calc)
         if not isinstance(got, float) or abs(got - want) > 1e-6 * want:
             V("units-inconsistent", "%s:fc-conversion-from:%s" % (calc, lab), phonopy=got, expected=want)
+    if not (isinstance(uo.get("hdf5_load_err"), float) and uo["hdf5_load_err"] <= 1e-6):
+        V("units-inconsistent", "%s:load(hdf5-labelled:%s)" % (calc, peers.FC_LABEL[uo["hdf5_src"]]), rel_err=uo.get("hdf5_load_err"))
     if uo["hdf5_err"] > 1e-6:
         V("units-inconsistent", "%s:hdf5-unit-conversion-from:%s" % (calc, peers.FC_LABEL[uo["hdf5_src"]]), rel_err=uo["hdf5_err"])
     probes["unit_table_run:%s" % calc] = 1
